@@ -203,7 +203,8 @@ class Sim:
             mb = r.getrandbits(56)
         else:
             mb = r.getrandbits(56)
-        msg = frames.tohex(frames.commb(df, addr, mb, r.getrandbits(27)), 112)
+        head = r.getrandbits(27) if seed % 3 else 0x0000B38   # every third reply carries the same FS/DR/UM/altitude bits, whoever sends it
+        msg = frames.tohex(frames.commb(df, addr, mb, head), 112)
         self.batch_c.append((self.now, msg, addr))
         self.stats["msgs"] += 1
 
